@@ -79,8 +79,15 @@ void the_operator(const Item& it, galois::UserContext<Item>& ctx) {
       ctx.abort();
     }
     if (a < k) {
+      // mixed flags: READ and WRITE both take the conflict lock (exclusive
+      // ownership either way); UNPROTECTED / PREVIOUS on an object that is
+      // already owned must neither lock again nor disturb the ownership
+      uint64_t fh = prf(P.seed, it.id, 70 + a);
       galois::runtime::acquire(&w.objs[P.nh_obj(it.id, a)],
-                               galois::MethodFlag::WRITE);
+                               fh % 10 < 3 ? galois::MethodFlag::READ : galois::MethodFlag::WRITE);
+      if ((fh >> 8) % 4 == 0)
+        galois::runtime::acquire(&w.objs[P.nh_obj(it.id, a)],
+                                 (fh >> 16) % 2 ? galois::MethodFlag::UNPROTECTED : galois::MethodFlag::PREVIOUS);
       for (int d = (int)(prf(P.seed, it.id, 50 + a) % (uint64_t)(P.delay + 1)); d > 0; --d)
         gsched_point();
     }
